@@ -37,7 +37,7 @@ def build_corpus(tier, rng):
         phf = (i % 3 == 0)
         cands.append(("custom" if i % 2 == 0 else "standard",
                       G.string_enum(rng, allow_default=False, custom_err=(i % 2 == 0), phf=phf, allow_fields=not phf,
-                                    generics=not phf, allow_aci=(i % 6 != 0))))
+                                    generics=not phf, allow_aci=(i % 6 != 0), allow_prefix=(i % 4 == 1))))
     # a DISABLED default variant takes no part in parsing: the custom error still applies
     from vlib.defs import DEFAULT
     for j, fn in enumerate(("perr_a", "perr::b")):
@@ -45,6 +45,10 @@ def build_corpus(tier, rng):
             vs = [Variant("Red", "unit"), Variant("Blue", "unit", [], [aci(True, explicit=False), ser("b%d" % j)])]
             vs.insert(pos, Variant("Gone", "tuple", [Field("String")], [DISABLED, DEFAULT] if j else [DEFAULT, DISABLED]))
             cands.append(("disabled-default", Item("E", vs, metas=[EM("pety", "PErr"), EM("pefn", fn)])))
+    # an enum-level prefix belongs to the printed names only: inputs that START with it reach the error function unchanged
+    for j, pf in enumerate(("colour/", "p", "é:")):
+        vs = [Variant("Red", "unit"), Variant("Blue", "tuple", [Field("u8")], [ser("b%d" % j)]), Variant("DarkGreen", "unit", [], [aci(True, explicit=False)])]
+        cands.append(("prefix", Item("E", vs, metas=[EM("prefix", pf), EM("pety", "PErr"), EM("pefn", "perr_a")] + ([EM("sall", "snake_case")] if j else []))))
     for it in c01.systematic(rng):
         it.variants = [v for v in it.variants if not v.has("default")]
         it.metas = [m for m in it.metas if m.kind not in ("pety", "pefn")] + [EM("pefn", "perr::b"), EM("pety", "PErr")]
